@@ -194,6 +194,53 @@ func (c *Ctx) runGuardDominance(prefix string) {
 			c.bad(prefix+".INB", key, fn.Pos(), "a result other than false is returned at "+bad+" without a dominating InBounds(receiver, point) test: points outside the reported box can be contained ("+req.why+")")
 		}
 	}
+	// GD.BOX: the two wrappers documented to impose a box never return their
+	// argument as it came (directly or through a type assertion)
+	for _, short := range []string{"model3d", "model2d"} {
+		for _, name := range []string{"ForceSolidBounds", "CacheSolidBounds"} {
+			fn := c.ssaFunc(c.mustFunc(short, name))
+			if fn == nil {
+				continue
+			}
+			c.analysed(qname(fn))
+			key := short + "." + name + " returns a checked solid"
+			bad := ""
+			for _, b := range fn.Blocks {
+				ret, ok := b.Instrs[len(b.Instrs)-1].(*ssa.Return)
+				if !ok || len(ret.Results) != 1 {
+					continue
+				}
+				// definite only: the argument itself (possibly through a type
+				// assertion) is handed back
+				v := ret.Results[0]
+				for depth := 0; depth < 6; depth++ {
+					switch x := v.(type) {
+					case *ssa.MakeInterface:
+						v = x.X
+						continue
+					case *ssa.ChangeInterface:
+						v = x.X
+						continue
+					case *ssa.TypeAssert:
+						v = x.X
+						continue
+					case *ssa.Extract:
+						v = x.Tuple
+						continue
+					}
+					break
+				}
+				if p, isP := v.(*ssa.Parameter); isP && p.Parent() == fn {
+					bad = c.pos(ret.Pos())
+				}
+			}
+			if bad == "" {
+				c.ok(prefix+".BOX", key, fn.Pos(), "no path hands the argument back as it came")
+			} else {
+				c.bad(prefix+".BOX", key, fn.Pos(), "the return at "+bad+" hands the argument back as it came: the box this wrapper promises to impose is not tested on that path")
+			}
+		}
+	}
 	// GD.CHK and GD.RAW
 	for _, short := range []string{"model3d", "model2d"} {
 		chk := c.ssaFunc(c.mustFunc(short, "CheckedFuncSolid"))
